@@ -477,6 +477,13 @@ func TestVerifC04H(t *testing.T) {
 		}
 		i++
 	}
+	// large deployments, on both sides of the metrics table's limit of 1000 names
+	for _, n := range []int{998, 1000, 1001, 1100} {
+		if vh.MyShard(i) {
+			c04Pool(r, n)
+		}
+		i++
+	}
 	if vres.Thorough() {
 		for _, strat := range allStrategies {
 			if vh.MyShard(i) {
@@ -489,6 +496,52 @@ func TestVerifC04H(t *testing.T) {
 			i++
 		}
 	}
+}
+
+// c04Pool: a deployment of n backends (around the metrics table's limit of 1000 names): the
+// first and the last backend answer 500 (threshold 1); both endpoints must report them unhealthy
+// and they must get no traffic.
+func c04Pool(r *vres.Report, n int) {
+	start := time.Now()
+	var evals int64
+	vh.RunSeq(r, "C04/sequential", func(s *vrt.Sched) {
+		k := newKit(s, kitOpts{Strategy: "round_robin", N: n, PassiveThr: 1, Window: 10})
+		victims := []string{"b0", fmt.Sprintf("b%d", n-1)}
+		for _, v := range victims {
+			k.stub(v).mode = "500"
+		}
+		for i := 0; i < n; i++ { // one round: every backend is sent one request
+			k.request("10.0.0.1", nil)
+			evals++
+		}
+		for _, v := range victims {
+			k.stub(v).mode = "ok"
+		}
+		mm := k.lb.GetMetricsCollector().GetMetrics()
+		for _, v := range victims {
+			desc := fmt.Sprintf("pool of %d backends, %s answered 500 (threshold 1)", n, v)
+			for _, bi := range k.lb.ListBackends() {
+				if bi.Name == v && bi.Healthy {
+					r.Violate("C04/not-ejected-after-threshold/large-pool", desc+": /v1/backends still lists it healthy", n, nil)
+					return
+				}
+			}
+			if bm, ok := mm.BackendMetrics[v]; ok && bm.IsHealthy {
+				r.Violate("C04/reported-healthy-inside-window/metrics/large-pool", desc+" and is ejected, but the metrics / health endpoint reports it healthy", n, map[string]interface{}{"engine": "H", "test": "TestVerifC04H", "pool": n})
+				return
+			}
+		}
+		before := k.stub(victims[0]).hits + k.stub(victims[1]).hits
+		for i := 0; i < n+2; i++ {
+			k.request("10.0.0.1", nil)
+			evals++
+		}
+		if k.stub(victims[0]).hits+k.stub(victims[1]).hits != before {
+			r.Violate("C04/traffic-inside-window/large-pool", fmt.Sprintf("pool of %d backends: an ejected backend still receives client requests", n), n, nil)
+		}
+	})
+	r.AddScenario(vres.Scenario{Name: fmt.Sprintf("health-in-a-pool-of-%d", n), Engine: "H", Executions: 1, States: 1, Transitions: evals, Outcomes: 1,
+		Bound: fmt.Sprintf("deployment of %d backends, first and last ejected by one failed response each, one more round of requests", n), Exhaustive: true, Extra: map[string]interface{}{"wall_s": time.Since(start).Seconds()}})
 }
 
 // c04Churn: churn names are added and removed again, then b0 is ejected (one failed response,
